@@ -24,6 +24,8 @@ def sh(cmd, **kw):
 sh(f"git -C {WT} checkout -- . && git -C {WT} clean -fdq")
 base = sh(f"git -C /repo rev-parse --short HEAD").stdout.strip()
 wt_head = sh(f"git -C {WT} rev-parse --short HEAD").stdout.strip()
+# the seeded change is tested on top of the CURRENT /repo head (later fix: commits included)
+sh(f"git -C {WT} checkout -q --detach {base}")
 meta = {"property": P, "source": "independent sub-agent given only the property text and a scratch worktree",
         "repo_head_at_seeding": wt_head, "repo_head_now": base}
 r = sh(f"git -C {WT} apply --check {SRC}/patch.diff")
@@ -32,7 +34,8 @@ if r.returncode != 0:
     sys.exit(2)
 sh(f"git -C {WT} apply {SRC}/patch.diff")
 meta["diffstat"] = sh(f"git -C {WT} diff --stat").stdout.strip().splitlines()[-1:]
-t = sh(f"cd {WT} && /venv/bin/python -m pytest -q -p no:cacheprovider 2>&1 | tail -1").stdout.strip()
+# the package is installed in editable mode from /repo: PYTHONPATH must point at the patched tree
+t = sh(f"cd {WT} && PYTHONPATH={WT}/src /venv/bin/python -m pytest -q -p no:cacheprovider 2>&1 | tail -1").stdout.strip()
 meta["suite_with_patch"] = t
 env = dict(os.environ, AIU_TREE=WT, PYTHONPATH=f"{WT}/src", PYTHONHASHSEED="0")
 d1 = subprocess.run(["/venv/bin/python", f"{SRC}/demo.py"], env=env, stdout=subprocess.PIPE, stderr=subprocess.STDOUT, text=True, timeout=600)
